@@ -656,6 +656,10 @@ func (C11) Run(t *testing.T, scn any) *sim.Outcome {
 	out.Nontrivial = checked > 0
 	if os.Getenv("REMED_TRACE") != "" {
 		fmt.Fprintf(os.Stderr, "REMED_TRACE %s %v violations=%d\n", sim.FP(sc), out.Counters, len(out.Violations))
+		if os.Getenv("REMED_TRACE") == "worlds" {
+			b, _ := json.Marshal(sc.W)
+			fmt.Fprintf(os.Stderr, "REMED_TRACE_WORLD %s\n", b)
+		}
 		if os.Getenv("REMED_TRACE") == sim.FP(sc) {
 			b, _ := json.Marshal(sc)
 			fmt.Fprintf(os.Stderr, "REMED_SCENARIO %s\n", b)
